@@ -202,6 +202,61 @@ func runInflightSendVsDeliver(res *lp.Result) {
 // The limits as configured on a real client connection (MaxInFlight = N, MaxPending = P with N != P): against a peer that
 // never answers, exactly N managed sends are accepted, with ids 1..N, and the next is refused; after the peer answers all of
 // them, N more are accepted.
+// Time passes: a request whose read timeout has elapsed has FAILED for its caller, but nothing says the server will not still answer
+// it — its stream id stays taken (no managed send gets it, a caller-chosen reuse is refused, the limit still counts it) until the
+// late response has arrived; then it is free again.
+func runInflightTimedOut(res *lp.Result) {
+	for _, explicit := range []bool{false, true} {
+		n := 2
+		id := fmt.Sprintf("N=%d, read timeout 40 ms, explicit ids=%v: send, send, wait 200 ms, send, late responses, send", n, explicit)
+		res.Case(id, true)
+		res.Count("timed-out-requests")
+		h := client.VerifNewHandler(n, 4, 40*time.Millisecond)
+		ids := []int16{0, 0}
+		if explicit {
+			ids = []int16{7, 9}
+		}
+		var got []int16
+		ok := true
+		for _, sid := range ids {
+			r, err := h.Send(frame.NewFrame(primitive.ProtocolVersion4, sid, &message.Options{}))
+			if err != nil {
+				ok = false
+				break
+			}
+			got = append(got, r.StreamId())
+		}
+		if !ok {
+			h.Close()
+			h.CancelContext()
+			continue
+		}
+		time.Sleep(200 * time.Millisecond)
+		third := int16(0)
+		if explicit {
+			third = got[0]
+		}
+		if r, err := h.Send(frame.NewFrame(primitive.ProtocolVersion4, third, &message.Options{})); err == nil {
+			res.Add(lp.Finding{Kind: "violation", What: "send accepted with a stream id that a timed-out, still unanswered request carries (its late response would reach the new request)",
+				Input: id, Impl: fmt.Sprintf("third send got stream id %d; unanswered: %v", r.StreamId(), got)})
+		} else {
+			// the late responses arrive: the ids are free again
+			for _, sid := range got {
+				h.Deliver(frame.NewFrame(primitive.ProtocolVersion4, sid, &message.Supported{}))
+			}
+			for k, sid := range ids {
+				if _, err := h.Send(frame.NewFrame(primitive.ProtocolVersion4, sid, &message.Options{})); err != nil {
+					res.Add(lp.Finding{Kind: "violation", What: "after the late responses of timed-out requests arrived their stream ids are not usable again", Input: id,
+						Impl: fmt.Sprintf("send %d: %v", k+1, firstWords(err.Error()))})
+					break
+				}
+			}
+		}
+		h.Close()
+		h.CancelContext()
+	}
+}
+
 func runInflightConnection(res *lp.Result) {
 	// (the last configuration: a limit in the thousands and requests of 16 KiB, so that the peer, which reads nothing before the
 	// burst is over, stalls the writer: socket buffers and every queue on the way fill up)
